@@ -1023,8 +1023,18 @@ def exec_run_case(ctx, bt, case, corr, reqs_out):
         return
     plain = set(n["name"] for _, n in tree_nodes(tree) if n["cls"] != "V")
     nodes = [(p, n) for p, n in tree_nodes(tree)]
+    # every strategy starts with a perm of its own, and an empty one (a strategy built now, after everything run so far in this
+    # process, too): perm is per-strategy state
+    objs = [node_at(root, tree, p) for p, n in nodes] + [bt.Strategy("fresh_%d" % ctx.evaluations)]
+    ctx.count("run:perm-ownership-checked", len(objs))
+    if len({id(o.perm) for o in objs}) != len(objs) or any(len(o.perm) for o in objs):
+        shared = [o.name for o in objs if sum(1 for q in objs if q.perm is o.perm) > 1]
+        ctx.violation("C13/perm-not-own-and-empty-at-construction", "strategies %r share a perm object / start with %r" % (shared, [dict(o.perm) for o in objs if len(o.perm)][:2]),
+                      {"case": case})
+        return
     for p, n in nodes:
-        node_at(root, tree, p).perm = mk_dict(n["perm0"])
+        o_ = node_at(root, tree, p)
+        o_.perm.update(mk_dict(n["perm0"]))      # (written into the strategy's own dict, not a replacement of it)
     ostate = {p: {"temp": {}, "perm": mk_dict(n["perm0"])} for p, n in nodes}
     ctx.classes.add(("run", tree_shape(tree), tree_sig(tree)[:80], len(case["segs"])))
     ctx.count("run:tree-depth:%d" % tree_depth(tree))
